@@ -9,6 +9,9 @@ from . import analysis
 from .translation import Letters
 from ..carriers import local_roles, role
 
+rule("C07.ah", "exactly one nodal row per (node, step) that has dispatch: the rows that enter a node's balance are selected by their type ('d'), "
+               "node and time step only - no conjunct on values (disp_factor != 0, bounds, prices), which would drop pairs whose rows all fail it",
+     floor=1, props=["C07", "C01", "C18"])
 rule("C01.a", "nodal rows: coefficients come from mapping['disp_factor'], columns from mapping.index, both through the same "
               "selector pair (type == 'd' & node == n; time_step == t); right-hand side zeros and letter count use one counter", floor=5,
      props=["C01", "C18"])     # C18: the nodal price is the dual of exactly this row - a rescaled row has a rescaled dual
@@ -73,7 +76,7 @@ rule("C01.l", "a wrapper declares every node of the asset it wraps: the nodes it
               "in the report)", floor=1, props=["C01", "C16"])
 
 
-@analysis("nodal", ["C01.a", "C01.b", "C01.d", "C01.e", "C01.f", "C01.h", "C01.i", "C07.h", "C07.j", "C18.a", "C18.b", "C01.l", "C07.ac", "C18.f", "C16.p"])
+@analysis("nodal", ["C01.a", "C01.b", "C01.d", "C01.e", "C01.f", "C01.h", "C01.i", "C07.h", "C07.j", "C18.a", "C18.b", "C01.l", "C07.ac", "C18.f", "C16.p", "C07.ah"])
 def run(ctx):
     p = ctx.p
     # ---- C01.l nodes a wrapper declares
@@ -207,6 +210,33 @@ def run(ctx):
                    {"type", "node", "time_step"} <= cols_tested and ("type", "'d'") in conj,
                    "the selector of a nodal row tests %s: it must restrict to dispatch rows (type == 'd') of one node and one time "
                    "step - otherwise internal variables (binaries, scale) enter the balance or steps are mixed" % sorted(conj), node=dst)
+            # ... and nothing else: a conjunct on the *values* (disp_factor != 0, a bound, a price) removes (node, step) pairs from the balance
+            extra = []
+            seen_cmp = set()
+            for sn in sel_nodes:
+                for nm in [x for x in au.walk_local(sn) if isinstance(x, ast.Name)]:
+                    todo, done = [nm.id], set()
+                    while todo:
+                        cur = todo.pop()
+                        if cur in done:
+                            continue
+                        done.add(cur)
+                        for d in bff.all_defs(cur):
+                            if d.kind == "assign" and d.value is not None:
+                                for cpr in au.walk_local(d.value):
+                                    if isinstance(cpr, ast.Compare) and id(cpr) not in seen_cmp:
+                                        seen_cmp.add(id(cpr))
+                                        for side in [cpr.left] + list(cpr.comparators):
+                                            lb = au.base_name(side)
+                                            if lb in col_of_param and col_of_param[lb] not in ("type", "node", "time_step"):
+                                                extra.append((cpr, col_of_param[lb]))
+                                    elif isinstance(cpr, ast.Name) and isinstance(cpr.ctx, ast.Load) and cpr.id not in done and cpr.id not in col_of_param:
+                                        todo.append(cpr.id)
+            ctx.ob("C07.ah", builder, "the rows of a node's balance are selected by type, node and step only", not extra,
+                   "the selector of the nodal rows also tests %s: a (node, step) pair whose dispatch rows all fail that test (an order of capacity "
+                   "0, a commodity factor 0) gets no nodal row and no record in map_nodal_restr although the mapping has dispatch there (24 pairs "
+                   "with dispatch, 12 nodal rows)" % "; ".join("%s (column %s)" % (au.short(c, 50), col) for c, col in extra[:3]),
+                   node=(extra[0][0] if extra else dst))
             # one counter for rows, right-hand side and letters
             cnt = roles.get("rows")
             counter_names = [local for local, src in local_of.items() if src not in appends and any(
